@@ -1,6 +1,209 @@
-/- C11 — model not written yet (stub so that the driver target exists). -/
-namespace Nitime.C11
+/-
+C11 — executable model of the multichannel (Levinson–Wiggins–Robinson) estimator
+(`nitime/algorithms/autoregressive.py`: lwr_recursion, MAR_est_LWR; `nitime/utils.py`:
+crosscov_vector / autocov_vector, generate_mar, bayesian / akaike information criterion;
+`nitime/analysis/granger.py`: fit_model).  Core Lean only.
 
-def handle (_args : List String) : String := "bad-op"
+`lwr` is written once over `MatOps M` (the operations `lwr_recursion` uses on square matrices:
+`+ - · neg`, conjugate transpose, `linalg.inv`, identity); the driver runs `M = SqMat n`
+(lists of rows of complex binary64, Gauss–Jordan inverse), `Props/C11.lean` instantiates the same
+definition at any star ring (in particular complex matrices) and ties it to `Lemmas/BlockLevinson`.
+
+Two variants of `MAR_est_LWR` (DESIGN §4): `marEstLWRCurrent` = today's code (`nlags=order`, i.e.
+order−1 coefficient matrices), `marEstLWR` = intended (`nlags=order+1`).
+-/
+import Nitime.Model.ARBase
+
+namespace Nitime.C11
+open Nitime.AR Nitime.Proto
+
+section lwr
+variable {M : Type} [MatOps M]
+open MatOps
+
+/-- loop state of `lwr_recursion` after `p` iterations: `a[0..p-1]`, `b[0..p-1]`, `sigf`, `sigb` -/
+structure LWRSt (M : Type) where
+  a : List M
+  b : List M
+  sigf : M
+  sigb : M
+
+/-- `Σ` started from `x0`, in loop order (`delta[:] = r[p+1]; delta += …`) -/
+def foldAdd (x0 : M) (n : Nat) (f : Nat → M) : M :=
+  (List.range n).foldl (fun acc i => acc +: f i) x0
+
+/-- one pass of `for p in range(P)` -/
+def lwrStep (r : Nat → M) (p : Nat) (s : LWRSt M) : LWRSt M :=
+  -- delta = r[p+1] + Σ_{i=1..p} a[i-1]·r[p+1-i]
+  let delta := foldAdd (r (p + 1)) p fun i => s.a.getD i zero *: r (p - i)
+  -- ka = delta·inv(sigb);  kb = delta^H·inv(sigf)
+  let ka := delta *: inv s.sigb
+  let kb := star delta *: inv s.sigf
+  -- a[i-1] -= ka·b[p-i], b[i-1] -= kb·ao[p-i]  (i = 1..p);  a[p] = -ka;  b[p] = -kb
+  let a' := (List.range p).map (fun i => s.a.getD i zero -: ka *: s.b.getD (p - 1 - i) zero) ++ [neg ka]
+  let b' := (List.range p).map (fun i => s.b.getD i zero -: kb *: s.a.getD (p - 1 - i) zero) ++ [neg kb]
+  -- sigf = (I - ka·kb)·sigf;  sigb = (I - kb·ka)·sigb
+  ⟨a', b', (one -: ka *: kb) *: s.sigf, (one -: kb *: ka) *: s.sigb⟩
+
+def lwrLoop (r : Nat → M) : Nat → LWRSt M
+  | 0 => ⟨[], [], r 0, r 0⟩
+  | p + 1 => lwrStep r p (lwrLoop r p)
+
+/-- `lwr_recursion(r)` for `r` of shape `(P+1, nc, nc)`: `(a, sigf)` -/
+def lwr (r : Nat → M) (P : Nat) : List M × M := ((lwrLoop r P).a, (lwrLoop r P).sigf)
+
+end lwr
+
+/-! ### covariance helper -/
+
+section cov
+variable {K : Type} [Scalar K]
+open Scalar
+
+/-- `crosscov_vector(x, y, nlags)[i, j, k]`: `mean_t x_i[t+k]·conj y_j[t]` over `t < N−k` -/
+def crosscovEntry (x y : Nat → Nat → K) (N i j k : Nat) : K :=
+  sumRange (N - k) (fun t => x i (t + k) *. conj (y j t)) /. ofNat (N - k)
+
+end cov
+
+/-! ### model-order selection (`fit_model`) -/
+
+/-- outcome of the `for lag in range(1, max_order)` loop: the accepted lag so far, the criterion
+value it had, and whether the loop has hit `break` -/
+structure FitSt (α : Type) where
+  cOld : Option α          -- `none` = `np.inf`
+  lag : Option Nat         -- lag of the values kept so far
+  broke : Bool
+
+/-- one pass: `c_new > c_old` ⇒ break, else keep the new values -/
+def fitPass {α : Type} (gt : α → α → Bool) (c : Nat → α) (s : FitSt α) (lag : Nat) : FitSt α :=
+  if s.broke then s else
+  match s.cOld with
+  | some co => if gt (c lag) co then { s with broke := true } else ⟨some (c lag), some lag, false⟩
+  | none => ⟨some (c lag), some lag, false⟩      -- nothing exceeds +inf
+
+/-- `fit_model(..., order=None, max_order)`: the lag whose values are returned
+(`order = lag − 1` coefficient matrices), or `none` = `ValueError` (loop ran out without `break`) -/
+def fitSelect {α : Type} (gt : α → α → Bool) (c : Nat → α) (maxOrder : Nat) : Option Nat :=
+  let s := (List.range' 1 (maxOrder - 1)).foldl (fitPass gt c) ⟨none, none, false⟩
+  if s.broke then s.lag else none
+
+/-! ### simulator -/
+
+/-- `u` built sample by sample, each new sample computed from the samples so far -/
+def recur {α β : Type} (step : List α → β → α) (xs : List β) : List α :=
+  xs.foldl (fun u x => u ++ [step u x]) []
+
+/-- `generate_mar`: `mar[i] = nz[i] − Σ_{j<min(i,P)} a[j]·mar[i−j−1]` -/
+def generateMar {V C : Type} (sub : V → V → V) (act : C → V → V) (dflt : V) (cdflt : C)
+    (a : List C) (nz : List V) : List V :=
+  recur (fun mar e =>
+    (List.range (min mar.length a.length)).foldl
+      (fun acc j => sub acc (act (a.getD j cdflt) (mar.getD (mar.length - j - 1) dflt))) e) nz
+
+/-! ### line protocol (complex binary64 matrices) -/
+
+def matsOf (n cnt : Nat) (zs : List CF) : Option (List Mat) :=
+  if zs.length = cnt * n * n then
+    some ((List.range cnt).map fun t => Mat.ofFn n n fun i j => zs.getD (t * n * n + i * n + j) ⟨0.0, 0.0⟩)
+  else none
+
+def showMats (ms : List Mat) : String := showCList (ms.foldr (fun m acc => flattenMat m ++ acc) [])
+
+def lwrCF (n : Nat) (rs : List Mat) : List Mat × Mat :=
+  lwr (M := SqMat n) (fun k => rs.getD k (Mat.zeros n)) (rs.length - 1)
+
+/-- channel-major data `nc × N` -/
+def chanOf (nc N : Nat) (zs : List CF) : Nat → Nat → CF := fun i t => if i < nc ∧ t < N then zs.getD (i * N + t) ⟨0.0, 0.0⟩ else ⟨0.0, 0.0⟩
+
+/-- `autocov_vector(x, nlags)` as the list of lag matrices `R(0..nlags-1)` -/
+def autocovMats (nc N nlags : Nat) (zs : List CF) : List Mat :=
+  let x := chanOf nc N zs
+  (List.range nlags).map fun k => Mat.ofFn nc nc fun i j => crosscovEntry x x N i j k
+
+/-- determinant by elimination (for the information criteria) -/
+def det2or (n : Nat) (m : Mat) : Float :=
+  -- Gaussian elimination without pivoting on a symmetric positive-definite matrix
+  let res := (List.range n).foldl (fun (st : Mat × Float) c =>
+    let rows := st.1
+    let piv := (Mat.entry rows c c).re
+    let rows' := (List.range n).map fun i =>
+      if i ≤ c then rows.getD i [] else
+        let f := (Mat.entry rows i c).re / piv
+        (List.range n).map fun j => CF.ofFloat ((Mat.entry rows i j).re - f * (Mat.entry rows c j).re)
+    (rows', st.2 * piv)) (m, 1.0)
+  res.2
+
+/-- `bayesian_information_criterion(ecov, p, m, Ntotal)` -/
+def bic (n : Nat) (ecov : Mat) (p m ntotal : Nat) : Float :=
+  2.0 * Float.log (det2or n ecov) + (2.0 * (p * p).toFloat * m.toFloat * Float.log ntotal.toFloat) / ntotal.toFloat
+
+/-- `akaike_information_criterion(ecov, p, m, Ntotal)` -/
+def aic (n : Nat) (ecov : Mat) (p m ntotal : Nat) : Float :=
+  2.0 * Float.log (det2or n ecov) + (2.0 * (p * p).toFloat * m.toFloat) / ntotal.toFloat
+
+def vsub (a b : List CF) : List CF := List.zipWith CF.sub a b
+def mact (n : Nat) (m : Mat) (v : List CF) : List CF :=
+  (List.range n).map fun i => (List.range n).foldl (fun acc k => CF.add acc (CF.mul (Mat.entry m i k) (v.getD k ⟨0.0, 0.0⟩))) ⟨0.0, 0.0⟩
+
+def chunk (n : Nat) (zs : List CF) : List (List CF) :=
+  (List.range (zs.length / n)).map fun t => (List.range n).map fun i => zs.getD (t * n + i) ⟨0.0, 0.0⟩
+
+def handle (args : List String) : String :=
+  match args with
+  | ["lwr", n, rs] => match n.toNat?, parseCList? rs with
+    | some n, some zs =>
+      if n = 0 ∨ zs.length % (n * n) ≠ 0 ∨ zs.length = 0 then "bad-op" else
+      match matsOf n (zs.length / (n * n)) zs with
+      | some ms => let r := lwrCF n ms; "ok " ++ showMats r.1 ++ " " ++ showMats [r.2]
+      | none => "bad-op"
+    | _, _ => "bad-op"
+  | ["acov", nc, nl, xs] => match nc.toNat?, nl.toNat?, parseCList? xs with
+    | some nc, some nl, some zs =>
+      if nc = 0 then "bad-op" else "ok " ++ showMats (autocovMats nc (zs.length / nc) nl zs)
+    | _, _, _ => "bad-op"
+  | ["mar", variant, nc, order, xs] => match nc.toNat?, order.toNat?, parseCList? xs with
+    | some nc, some order, some zs =>
+      if nc = 0 then "bad-op" else
+      let nl := if variant = "intended" then order + 1 else order
+      if nl = 0 then "err IndexError" else
+      let r := lwrCF nc (autocovMats nc (zs.length / nc) nl zs)
+      "ok " ++ showMats r.1 ++ " " ++ showMats [r.2]
+    | _, _, _ => "bad-op"
+  | ["fit", crit, order, maxo, xs] => match order.toInt?, maxo.toNat?, parseCList? xs with
+    | some order, some maxo, some zs =>
+      let N := zs.length / 2
+      let fitLag (lag : Nat) := lwrCF 2 (autocovMats 2 N lag zs)
+      let out (lag : Nat) :=
+        let r := fitLag lag
+        s!"ok {lag - 1} " ++ showMats (autocovMats 2 N lag zs) ++ " " ++ showMats r.1 ++ " " ++ showMats [r.2]
+      if order ≥ 0 then out (order.toNat + 1) else
+      let c (lag : Nat) : Float :=
+        let r := fitLag lag
+        if crit = "aic" then aic 2 r.2 2 (lag - 1) (2 * N) else bic 2 r.2 2 (lag - 1) (2 * N)
+      match fitSelect (fun a b => decide (a > b)) c maxo with
+      | some lag => out lag
+      | none => "err ValueError"
+    | _, _, _ => "bad-op"
+  | ["fitc", tbl, maxo, xs] => match parseFloatList? tbl, maxo.toNat?, parseCList? xs with
+    | some tbl, some maxo, some zs =>
+      -- a caller-supplied criterion that only looks at the order: c(lag) = tbl[lag - 1]
+      let N := zs.length / 2
+      match fitSelect (fun a b => decide (a > b)) (fun lag => tbl.getD (lag - 1) 0.0) maxo with
+      | some lag =>
+        let r := lwrCF 2 (autocovMats 2 N lag zs)
+        s!"ok {lag - 1} " ++ showMats (autocovMats 2 N lag zs) ++ " " ++ showMats r.1 ++ " " ++ showMats [r.2]
+      | none => "err ValueError"
+    | _, _, _ => "bad-op"
+  | ["gmar", nc, as, nz] => match nc.toNat?, parseCList? as, parseCList? nz with
+    | some nc, some azs, some nzs =>
+      if nc = 0 then "bad-op" else
+      match matsOf nc (azs.length / (nc * nc)) azs with
+      | some a =>
+        let out := generateMar vsub (mact nc) [] (Mat.zeros nc) a (chunk nc nzs)
+        "ok " ++ showCList (out.foldr (fun v acc => v ++ acc) [])
+      | none => "bad-op"
+    | _, _, _ => "bad-op"
+  | _ => "bad-op"
 
 end Nitime.C11
